@@ -51,7 +51,7 @@ func (d DiffElement) Render(opts ...Option) string {
 	// level diff.
 	var commonSequence []any
 	isSingleStringDiff := false
-	if len(d.Remove) == 1 && len(d.Add) == 1 {
+	if isColor && len(d.Remove) == 1 && len(d.Add) == 1 {
 		oldStr, oldOk := d.Remove[0].(jsonString)
 		newStr, newOk := d.Add[0].(jsonString)
 		if oldOk && newOk {
